@@ -133,3 +133,13 @@ package linkedlistqueue
 //@   ensures [C12] atomic: result != nil ==> Seq(queue) == old(Seq(queue))
 //@   ensures [C11 C12] loaded: jarr_kind(bytes, queue.list.first.value) == 3 ==> len(Seq(queue)) == jarr_len(bytes, queue.list.first.value) && (forall i :: 0 <= i && i < len(Seq(queue)) ==> Seq(queue)[i] == jarr_at(bytes, i, queue.list.first.value))
 //@   ensures [C12] null: jarr_kind(bytes, queue.list.first.value) == 2 ==> len(Seq(queue)) == 0
+
+//@ -- String: starts with the container's name; reads only (C15, C18)
+//@ func Queue.String
+//@   requires Inv(queue)
+//@   modifies nothing
+//@   ensures [C15 C17 C18] hasPrefix(result, "LinkedListQueue")
+//@   loop 1:
+//@     invariant 0 - 1 <= rangeindex && rangeindex < rangelen && (rangelen == 0 ==> rangeindex == 0 - 1) && rangelen >= 0
+//@     invariant isnil(values) || fresh(arr(values))
+//@     decreases rangelen - rangeindex
